@@ -8,6 +8,8 @@ package comet
 import (
 	"crypto/sha1"
 	"fmt"
+	"math"
+	"path/filepath"
 	"sort"
 	"strings"
 
@@ -16,7 +18,14 @@ import (
 	vtime "github.com/wizenheimer/comet/internal/vrt/vtime"
 )
 
-const vStoreDir = "/data"
+// vStoreDir is the store's base directory inside the in-memory file system. The
+// "dirnames" shards run with names containing spaces, glob metacharacters, a backslash,
+// non-ASCII letters, nested non-existing parents and ".." components.
+var vStoreDir = "/data"
+
+var vStoreDirNames = []string{"/da ta", "/data[v1]", "/data*", "/d?ta", "/da\\ta", "/\u00fcn\u00ef/\u65e5\u672c", "/a/b/c", "/data/../other", "/[", "/-rf", "/data.bin.gz", "/hybrid_000009.bin.gz"}
+
+func vLock() string { return filepath.Clean(vStoreDir + "/LOCK") }
 
 type vStoreCfg struct {
 	Mem  int    // 0: memtable fits 1 document, 1: fits 2, 2: effectively unlimited
@@ -237,6 +246,9 @@ func vStoreSearch(st *PersistentHybridIndex, q int) (map[uint32]float64, error) 
 		s = s.WithVector([]float32{1, 0}).WithText("alpha").WithThreshold(0.05)
 	case 6:
 		s = s.WithVector([]float32{1, 0}).WithThreshold(0.05)
+	case 7:
+		// "return everything": the largest k there is
+		s = s.WithVector([]float32{1, 0}).WithK(math.MaxInt64)
 	}
 	res, err := s.Execute()
 	if err != nil {
@@ -264,15 +276,47 @@ func vStoreMatches(d vDoc, q int, tmpl string) bool {
 		return tmpl == "vtm" && (vStoreMatches(d, 6, tmpl) || vStoreMatches(d, 1, tmpl))
 	case 6:
 		return len(d.Vec) == 2 && d.Vec[0] == 1 && d.Vec[1] == 0
+	case 7:
+		return len(d.Vec) > 0
 	}
 	return false
 }
 
 func vStoreQueries(tmpl string) []int {
 	if tmpl == "vtm" {
-		return []int{0, 1, 2, 3, 5, 6}
+		return []int{0, 1, 2, 3, 5, 6, 7}
 	}
-	return []int{0, 4, 6}
+	return []int{0, 4, 6, 7}
+}
+
+// vTornWitness: a document that exists only in an incomplete / damaged segment was
+// returned. The known mechanism (F12) is narrow: the segment's load FAILED (nothing is
+// cached for it) but the components decoded before the failure went INTO the shared
+// template objects, which every memtable and segment wraps - so the template itself holds
+// the document. Anything else (the damaged segment was accepted and cached, the document
+// comes from somewhere else) gets another label and is reported.
+func vTornWitness(st *PersistentHybridIndex, id uint32) bool {
+	for _, seg := range st.segmentManager.segments {
+		if seg.cachedIndex != nil {
+			if h, ok := seg.cachedIndex.(*hybridSearchIndex); ok {
+				if _, has := h.docInfo[id]; has {
+					return false // a cached (successfully loaded) segment knows the document
+				}
+			}
+		}
+	}
+	if v := st.config.VectorIndexTemplate; v != nil && vStoredVector(v, id) != nil {
+		return true
+	}
+	if t, ok := st.config.TextIndexTemplate.(*BM25SearchIndex); ok && t != nil {
+		if _, has := t.docLengths[id]; has {
+			return true
+		}
+	}
+	if m, ok := st.config.MetadataIndexTemplate.(*RoaringMetadataIndex); ok && m != nil && m.allDocs.Contains(id) {
+		return true
+	}
+	return false
 }
 
 // number of segment decodes so far = opens of hybrid_ files (getIndex cache misses)
